@@ -120,6 +120,9 @@ def sample_config(rng, family=None, families=None, n_range=(2, 14), d_range=(1, 
     if family is None:
         family = choice(rng, families or GRADIENT_FAMILIES)
     fam = FAMILIES[family]
+    import os
+    if os.environ.get("GEMSIM_TIER") == "thorough":
+        p_big = min(0.35, 2.5 * p_big)
     big = rng.random() < p_big
     if big:
         # swarm: a share of the runs uses larger shapes (more samples, features, clusters, epochs, hidden units)
